@@ -525,7 +525,7 @@ func TestC15_Reconnect(t *testing.T) {
 		"exactly once after the reconnect and in order on the wire (long-polling), offline volatile never, offline ack emits that time out are purged and get ErrAckTimeout once; "+
 		"non-trivial = an outage of >= 2 delays with >= 2 offline emits of different kinds")
 	rapidGuard(t, "C15", c15Check)
-	runRapid(t, c15Check, tierN(2400, 80000), func(t *rapid.T) {
+	runRapid(t, c15Check, tierN(8000, 100000), func(t *rapid.T) {
 		c := genC15Case(t, true)
 		f, nt := evalC15(c)
 		ev.Case(c, nt, c.class())
